@@ -340,10 +340,17 @@ def import_case(case: dict) -> dict:
         os.makedirs(p(case["cwd"]), exist_ok=True)
         os.chdir(p(case["cwd"]))
         entry = sp_text(case["entrySp"])
+        moved = False
         try:
             with time_limit(20):
                 cur = parse_file(entry)
                 for i in range(1, len(case["chain"]) + 1):
+                    at = case["chain"][i - 1].get("at")
+                    if at is not None and at != case["cwd"] or moved:
+                        # the history of Imports.tla: the working directory changes between two hops
+                        os.makedirs(p(at), exist_ok=True)
+                        os.chdir(p(at))
+                        moved = True
                     cur = cur[f"n{i}"]
                 if fault != "none":
                     cur = cur[f"n{k}"]
